@@ -38,7 +38,7 @@ PROPS = {
         "families": ["c03"] * 3 + ["c01a", "c01b", "c04", "c04s", "c15", "c02"],
         "runs": {"quick": 30000, "thorough": 400000},
         "level": "exploration",
-        "rule": "one evaluation = one simulated run; every write of ebusd to the device is judged by an entitlement monitor from the bytes the kernel had handed to ebusd at that instant. Non-trivial = ebusd transmitted at least once or was read-only with requests pending; distinct = distinct trace hashes among those.",
+        "rule": "one evaluation = one simulated run; every write of ebusd to the device is judged by an entitlement monitor from the bytes the kernel had handed to ebusd at that instant. In 45 % of the c03 plans 8..47 reads or polls come back early without data (readiness without data, read of 0 bytes, early poll return), mostly with ebusd configured as SYN generator. Non-trivial = ebusd transmitted at least once or was read-only with requests pending; distinct = distinct trace hashes among those.",
         "components": COMPONENTS_L1,
         "assumptions": ASSUME_COMMON + ["the lock counter is judged only through what the statement says explicitly: no arbitration at the first SYN after a lost arbitration"],
     },
@@ -47,7 +47,7 @@ PROPS = {
         "claims": ["C04", "C02:false-success", "C02:wrong-slave-data"],   # a waiter released with success (or data) that no valid exchange of its own request produced got somebody else's result; use-after-free / double free of request objects and hangs are what C04 forbids: sanitizer and watchdog hits in these families count for C04
         "runs": {"quick": 30000, "thorough": 400000},
         "level": "fault_enumeration",
-        "rule": "one evaluation = one simulated run with up to 6 concurrently submitting caller threads (sendAndWait, addRequest(wait), fire-and-forget with self deletion, restarting callbacks, submissions from the bus thread's own ps_empty notification); family c04e sweeps, per base scenario, 8 device fault kinds over the I/O call positions 10,13,..,187 of the device fd. Non-trivial = at least one request was submitted and at least one fault fired or two threads were runnable at once; distinct = distinct trace hashes among those.",
+        "rule": "one evaluation = one simulated run with up to 6 concurrently submitting caller threads (sendAndWait, addRequest(wait), fire-and-forget with self deletion, restarting callbacks, submissions from the bus thread's own ps_empty notification); family c04e sweeps, per base scenario, 8 device fault kinds over the I/O call positions 10,13,..,187 of the device fd. A notification with an intermediate result code and a success (or slave data) that no valid exchange of the request's own telegram produced count for C04 as well. Non-trivial = at least one request was submitted and at least one fault fired or two threads were runnable at once; distinct = distinct trace hashes among those.",
         "components": COMPONENTS_L1,
         "assumptions": ASSUME_COMMON + ["liveness bound: 60 simulated seconds after the last fault and the last submission", "leaks are decided by construct/destroy accounting of the instrumented requests, LeakSanitizer is off"],
     },
@@ -93,7 +93,7 @@ PROPS = {
         "assumptions": ASSUME_COMMON + ["only the end-to-end path with time, retries and multi-step I/O is decided; the purely combinatorial part of the statement is not claimed"]},
     "C12": {"families": ["c12"] * 5 + ["c12o"] * 4 + ["c12n"], "claims": ["C09:telegram-not-identified"],   # a stored passive value that can no longer be read back is a history dependent result as well
         "runs": {"quick": 20000, "thorough": 400000}, "level": "exploration", "timeout_ms": 30000,
-        "rule": "one evaluation = one simulated run of the whole daemon: 1..3 client connections issue hostile encode/decode/read/write/find commands (overflowing, malformed, unknown types) interleaved with probe commands whose result a pristine instance gives (reference codec); the simulated kernel additionally leaves errno clobbered after successful calls. Non-trivial = at least one probe judged; distinct = distinct trace hashes among those.",
+        "rule": "one evaluation = one simulated run of the whole daemon: 1..3 client connections issue hostile encode/decode/read/write/find commands (overflowing, malformed, unknown types) interleaved with probe commands whose result a pristine instance gives (reference codec); the simulated kernel additionally leaves errno clobbered after successful calls. One run in ten is family c12n: two names defined in the same two circuits under one true condition in opposite line orders, read by name without circuit (the same circuit must be selected for both). Non-trivial = at least one probe judged; distinct = distinct trace hashes among those.",
         "components": {"real": ["whole daemon except main()"], "stub": ["as C09"]},
         "assumptions": ASSUME_COMMON + ["history independence is decided for the operations that pass through the daemon; leakage between two fields of one pure call is not covered"]},
     "C16": {"families": ["c16"] * 3 + ["c16v"], "runs": {"quick": 15000, "thorough": 300000}, "level": "exploration", "timeout_ms": 30000,
